@@ -1,9 +1,27 @@
-"""C06 — emitted bytecode respects the stack contract the unchecked VM relies on.  DESIGN.md §5 C06."""
+"""C06 — emitted bytecode respects the stack contract the unchecked VM relies on.  DESIGN.md §5 C06.
+
+Streams (all judged by the verified verifier `Model/Verifier.lean`, whose depths come from `vmEffect`, written from vm/ops.rs,
+independently of the compiler's own `stack_effect` table):
+  corpus, fixtures, directed (c06gen: every variant of the regenerated instruction set in front of a handler / the depth peak /
+  a join / a back edge; class bodies with `super.m(args)`, `super.m()`, static methods, fields, local classes, closures in
+  methods, imports/exports), generated (gen_programs), probe (executed depths vs certificate), jump_boundary (encoder limits).
+Ties: encode (model encoder vs CODE bytes), probe (vmEffect vs interpreter), capacity (max_slots of a fully reachable function
+  = the model's peak; continues to a concrete search), table coverage (`table_coverage` in the evidence: which variants of the
+  table occurred in verified functions, and in front of what; a variant no function contains in front of a handler fails the run).
+[G] `C06_stackEffect_eq_vmEffect` / `C06_stackEffect_eq_modelDelta`: the regenerated table equals the model, row by row.  When
+  it re-opens, `search` asks the driver which rows differ (`!effectdiff` = `EffectRows.differingRows`) and the directed generator
+  draws its segments around those instructions first; the replay names the rows, how often they stood in front of a handler,
+  and says LOUDly when a differing row was never generated.
+C06_NO_CORPUS=1 leaves corpus/C06 out (to show that a stream, not the stored regression input, finds a defect)."""
 import json
 import os
 import random
 
+import re
+import time
+
 from .. import common, dumps, gen_programs
+from . import c06gen
 
 PROP = "C06"
 LEVEL = "proof"
@@ -23,66 +41,248 @@ def write_programs(ctx, n, label, opts=None):
     return files
 
 
+def write_directed(ctx, n, label, focus=None, seed_salt=0):
+    """programs of the directed generator (c06gen): every variant of the regenerated instruction set in front of an observer"""
+    d = os.path.join(common.VERIF, "work", "c06_%s_%s" % (label, ctx.tier))
+    os.makedirs(d, exist_ok=True)
+    files = []
+    variants = table_variants()
+    for k in range(n):
+        src, _ = c06gen.gen_program(ctx.seed * 1000003 + 7919 * seed_salt + k, focus, variants or None)
+        f = os.path.join(d, "d%d.lay" % k)
+        with open(f, "w") as fh:
+            fh.write(src)
+        files.append(f)
+    return files
+
+
+_VARIANTS = []
+
+
+def table_variants():
+    """the variants of the regenerated `SymbolicByteCode` (Gen.symNames), from the driver"""
+    if not _VARIANTS:
+        rc, out, err = common.run_lines([common.DRIVER, "verify"], ["!variants"], timeout=60)
+        if out and out[0].startswith("variants "):
+            _VARIANTS.extend(out[0].split()[1:])
+    return list(_VARIANTS)
+
+
+def table_diff():
+    """rows of the regenerated stack_effect table that differ from the model (EffectRows.differingRows):
+    (variant names, raw words `Name:operands:table=<n>:model=<n>`); None when the driver cannot say"""
+    if not os.path.exists(common.DRIVER):
+        return None
+    rc, out, err = common.run_lines([common.DRIVER, "verify"], ["!effectdiff"], timeout=60)
+    if not out or not out[0].startswith("effectdiff"):
+        return None
+    words = out[0].split()[1:]
+    return list(dict.fromkeys(w.split(":")[0] for w in words)), words
+
+
+class TableCoverage:
+    """which variants of the table occurred in verified functions, and in front of what"""
+
+    def __init__(self):
+        self.funs, self.occ, self.h, self.p = {}, {}, {}, {}
+        self.nfun = 0
+
+    def add(self, reply):
+        m = re.search(r"cover=(\S*)", reply)
+        if not m:
+            return
+        self.nfun += 1
+        for w in m.group(1).split(","):
+            if not w:
+                continue
+            nm, occ, h, p = w.split(":")
+            self.funs[nm] = self.funs.get(nm, 0) + 1
+            self.occ[nm] = self.occ.get(nm, 0) + int(occ)
+            self.h[nm] = self.h.get(nm, 0) + int(h)
+            self.p[nm] = self.p.get(nm, 0) + int(p)
+
+    def rejected(self, f):
+        """a function the verifier rejected: which variants it contains (no certificate, so no positions)"""
+        self.nrej = getattr(self, "nrej", 0) + 1
+        self.rej = getattr(self, "rej", {})
+        for nm in set(p.strip().split(" ")[0] for p in f.get("POST", "").split(";") if p.strip()):
+            self.rej[nm] = self.rej.get(nm, 0) + 1
+
+    def report(self, variants, rows=None):
+        variants = variants or sorted(self.funs)
+        rep = {
+            "variants_in_table": len(variants),
+            "verified_functions": self.nfun,
+            "seen": sum(1 for v in variants if self.funs.get(v)),
+            "seen_before_a_handler": sum(1 for v in variants if self.h.get(v)),
+            "seen_before_the_depth_peak": sum(1 for v in variants if self.p.get(v)),
+            "never_seen": [v for v in variants if not self.funs.get(v)],
+            "never_before_a_handler": [v for v in variants if self.funs.get(v) and not self.h.get(v)],
+            "per_variant": {v: {"functions": self.funs.get(v, 0), "occurrences": self.occ.get(v, 0),
+                                "functions_with_handler_after": self.h.get(v, 0),
+                                "functions_with_peak_after": self.p.get(v, 0),
+                                "rejected_functions_containing_it": getattr(self, "rej", {}).get(v, 0)} for v in (rows or variants)},
+            "rejected_functions": getattr(self, "nrej", 0),
+        }
+        return rep
+
+
+COVER = TableCoverage()
+# never reaches apply_stack_effects: the peephole pass deletes it (it only separates call arguments for the pass itself)
+NOT_IN_EMITTED_CODE = ["ArgumentDelimiter"]
+
+
 def verify_funs(funs, probes=None):
     """Run the Lean verifier over dump records. Returns list of (fun, reply)."""
     todo = [f for f in funs if f.get("POST", "").count(";") < LONG and dumps.head_info(f)]
     reqs = [dumps.verify_request(f, (probes or {}).get(id(f), "")) for f in todo]
-    rc, out, err = common.run_lines([common.DRIVER, "verify"], reqs, timeout=1200)
-    res = list(zip(todo, out))
-    if len(out) < len(reqs):
-        res += [(f, "fail driver-died") for f in todo[len(out):]]
-    return res, len(funs) - len(todo)
+    # the engine is a pure function of the request line: shard the requests over a few driver processes
+    n = max(1, min(8, common.NCPU // 2, len(reqs) // 200))
+    if n == 1:
+        rc, out, err = common.run_lines([common.DRIVER, "verify"], reqs, timeout=1200)
+        out = out + ["fail driver-died"] * (len(reqs) - len(out))
+    else:
+        import concurrent.futures
+        shards = [reqs[k::n] for k in range(n)]
+        with concurrent.futures.ThreadPoolExecutor(max_workers=n) as ex:
+            outs = list(ex.map(lambda sh: common.run_lines([common.DRIVER, "verify"], sh, timeout=1200)[1], shards))
+        out = [None] * len(reqs)
+        for k, o in enumerate(outs):
+            o = o + ["fail driver-died"] * (len(shards[k]) - len(o))
+            for j, line in enumerate(o[:len(shards[k])]):
+                out[k + j * n] = line
+    return list(zip(todo, out)), len(funs) - len(todo)
 
 
-def shrink_program(src, still_fails):
-    """Line-based delta debugging that keeps the program compiling to a failing function."""
+def block_end(lines, i):
+    """index of the line that closes the brace-balanced construct opened on line i (catch/else continuations included)"""
+    depth, j = 0, i
+    while j < len(lines):
+        depth += lines[j].count("{") - lines[j].count("}")
+        if depth < 0:
+            return None
+        if depth == 0 and j >= i and not re.match(r"\s*\}\s*(catch|else)\b.*\{\s*$", lines[j]):
+            return j
+        j += 1
+    return None
+
+
+def shrink_program(src, still_fails, budget_s=240):
+    """Delta debugging that keeps the program compiling to a failing function: whole brace-balanced constructs (a class, a
+    function, a try with its catch clauses, a loop), outermost first, then lines in halving chunks; repeated until neither
+    pass removes anything (a function can go only after the lines that call it)."""
     lines = src.split("\n")
-    changed = True
-    while changed:
-        changed = False
-        n = len(lines)
-        chunk = max(1, n // 2)
-        while chunk >= 1:
+    t0 = time.time()
+
+    def blocks():
+        nonlocal lines
+        removed = False
+        i = 0
+        while i < len(lines) and time.time() - t0 < budget_s:
+            if lines[i].count("{") > lines[i].count("}") and not lines[i].lstrip().startswith("}"):
+                j = block_end(lines, i)
+                if j is not None and j > i:
+                    cand = lines[:i] + lines[j + 1:]
+                    if cand and still_fails("\n".join(cand)):
+                        lines = cand
+                        removed = True
+                        continue
+            i += 1
+        return removed
+
+    def chunks():
+        nonlocal lines
+        removed = False
+        chunk = max(1, len(lines) // 2)
+        while chunk >= 1 and time.time() - t0 < budget_s:
             i = 0
             while i < len(lines):
                 cand = lines[:i] + lines[i + chunk:]
                 if cand and still_fails("\n".join(cand)):
                     lines = cand
-                    changed = True
+                    removed = True
                 else:
                     i += chunk
             chunk //= 2
+        return removed
+
+    rounds = 0
+    while rounds < 8 and time.time() - t0 < budget_s:
+        rounds += 1
+        a = blocks()
+        b = chunks()
+        if not a and not b:
+            break
     return "\n".join(lines)
 
 
-def program_fails_verifier(src, tmp):
+def program_fails_verifier(src, tmp, detail=None):
+    """the compiler panics on the program, or ACCEPTS it (a rejected program is outside the property, although the hook logs
+    the functions compiled before the diagnostic) and the verifier rejects one of its functions"""
     with open(tmp, "w") as fh:
         fh.write(src)
     funs, stats = dumps.dump_functions([tmp])
     if any(st.startswith("PANIC") for _, st in stats):
+        if detail is not None:
+            detail.update(function=None, reply="compiler panic: " + [st for _, st in stats if st.startswith("PANIC")][0][:300], post="")
         return True
+    if not all(st.startswith("Ok") for _, st in stats):
+        return False
     res, _ = verify_funs(funs)
-    return any(not r.startswith("ok") for _, r in res)
+    for f, r in res:
+        if not r.startswith("ok"):
+            if detail is not None:
+                detail.update(function=f.get("head"), reply=r, post=f.get("POST", "")[:4000])
+            return True
+    return False
 
 
 def report_bad(ctx, label, f, reply, kind="implementation-vs-spec"):
     src = open(f["file"]).read() if f.get("file") and os.path.exists(f["file"]) else ""
     tmp = os.path.join(common.VERIF, "work", "c06_shrink_%d.lay" % os.getpid())
     small = src
-    if src and len(src) < 20000:
+    det = {}
+    if src and len(src) < 60000 and program_fails_verifier(src, tmp):
         try:
             small = shrink_program(src, lambda s: program_fails_verifier(s, tmp))
+            program_fails_verifier(small, tmp, det)
         except Exception:
             small = src
     ctx.cov["impl_vs_spec_failures"] += 1
+    # the function and the verifier's words are those of the shrunk program when shrinking was possible
     ctx.violation(label, {"engine": "verify", "kind": kind,
-                          "what": "the verified bytecode verifier rejects a function the compiler emitted: " + reply,
-                          "file": f.get("file"), "function": f.get("head"), "program": small,
-                          "post": f.get("POST", "")[:4000], "seed": ctx.seed})
+                          "what": "the verified bytecode verifier rejects a function the compiler emitted: " + (det.get("reply") or reply),
+                          "file": f.get("file"), "function": det.get("function") or f.get("head"), "program": small,
+                          "post": det.get("post") or f.get("POST", "")[:4000], "seed": ctx.seed,
+                          "in_the_generated_program": {"function": f.get("head"), "verifier": reply}})
+
+
+def dump_sharded(files, timeout=1200):
+    """dumps.dump_functions over strided slices in parallel harness processes; records come back in the order of `files`
+    (the few very long limit fixtures sit next to each other: striding spreads them)"""
+    n = max(1, min(6, common.NCPU // 2, len(files) // 40))
+    if n == 1 or len(set(files)) != len(files):
+        return dumps.dump_functions(files, timeout=timeout)
+    import concurrent.futures
+    parts = [files[k::n] for k in range(n)]
+    with concurrent.futures.ThreadPoolExecutor(max_workers=n) as ex:
+        outs = list(ex.map(lambda p: dumps.dump_functions(p, timeout=timeout), parts))
+    byfile, stat = {}, {}
+    for fs, st in outs:
+        for f in fs:
+            byfile.setdefault(f["file"], []).append(f)
+        for fl, x in st:
+            stat[fl] = x
+    funs, stats = [], []
+    for fl in files:
+        funs += byfile.get(fl, [])
+        if fl in stat:
+            stats.append((fl, stat[fl]))
+    return funs, stats
 
 
 def check_dump(ctx, label, files, nontrivial_rule=None):
-    funs, stats = dumps.dump_functions(files)
+    funs, stats = dump_sharded(files)
     panics = [(fl, st) for fl, st in stats if st.startswith("PANIC")]
     ctx.stream_stat(label, files=len(files), functions=len(funs), compile_panics=len(panics),
                     compile_errors=sum(1 for _, st in stats if st.startswith("CompileError")))
@@ -100,6 +300,8 @@ def check_dump(ctx, label, files, nontrivial_rule=None):
     if not check_encode(ctx, label, funs):
         return None
     nh = 0
+    slack = {}
+    loose = None
     for f, r in res:
         has_handler = "PushHandler" in f.get("POST", "")
         nh += has_handler
@@ -107,8 +309,37 @@ def check_dump(ctx, label, files, nontrivial_rule=None):
         if not r.startswith("ok"):
             report_bad(ctx, label + "_verifier", f, r)
             return None
-    ctx.stream_stat(label, functions_with_handlers=nh)
+        COVER.add(r)
+        m = re.search(r"maxdepth=(\d+) capacity=(\d+)", r)
+        if m and " allreach=1" in r:
+            k = int(m.group(2)) - int(m.group(1))
+            slack[k] = slack.get(k, 0) + 1
+            if k != 1 and loose is None:
+                loose = (f, r)
+    ctx.stream_stat(label, functions_with_handlers=nh, **{"capacity_minus_peak_%d" % k: v for k, v in slack.items()})
+    if loose is not None:
+        check_capacity_tie(ctx, label, *loose)
     return funs
+
+
+def check_capacity_tie(ctx, label, f, r):
+    """The capacity tie: in a function whose every instruction the certificate reaches, the compiler's simulation and the
+    model walk the same instructions, so `max_slots` must be the model's peak exactly (capacity = peak + 1: `max_slots` counts
+    slot 0, which `push_frame` reserves again).  A different value is a simulation that counts differently from the VM although
+    no clause of the contract fails in this function (an over-estimate only wastes a slot here): model-vs-implementation.
+    The streams continue after it (and `run` ends with the search) so that a concrete failing input is reported when there
+    is one; `Ctx.finish` then folds this record into that replay."""
+    ctx.cov["model_vs_impl_disagreements"] += 1
+    if getattr(ctx, "capacity_tie_broken", False):
+        return False       # reported once; the streams go on looking for a concrete failing input
+    ctx.capacity_tie_broken = True
+    src = open(f["file"]).read() if f.get("file") and os.path.exists(f["file"]) else ""
+    ctx.violation(label + "_capacity_tie", {"engine": "verify", "kind": "model-vs-implementation",
+                                            "broken": "capacity tie: max_slots of a fully reachable function differs from the model's depth peak "
+                                                      "(apply_stack_effects / stack_effect vs vmEffect)",
+                                            "what": r.split(" cover=")[0], "file": f.get("file"), "function": f.get("head"),
+                                            "post": f.get("POST", "")[:4000], "program": src}, no_input=True)
+    return False
 
 
 def check_encode(ctx, label, funs):
@@ -249,63 +480,184 @@ def check_boundary(ctx, label="jump_boundary"):
     return True
 
 
-def search(ctx):
-    """A broken obligation: look for a program whose emitted code the verifier rejects (10x budget)."""
-    files = write_programs(ctx, 3000, "search")
+def search_files(files, cover=None):
+    """first program of `files` the compiler panics on or whose emitted code the verified verifier rejects"""
     funs, stats = dumps.dump_functions(files)
     for fl, st in stats:
         if st.startswith("PANIC"):
-            return {"kind": "implementation-vs-spec", "what": "the compiler panicked: " + st, "file": fl,
-                    "program": open(fl).read(), "found_by": "search"}
-    res, _ = verify_funs(funs)
-    for f, r in res:
-        if not r.startswith("ok"):
-            src = open(f["file"]).read()
+            src = open(fl).read()
             tmp = os.path.join(common.VERIF, "work", "c06_shrink_%d.lay" % os.getpid())
-            small = shrink_program(src, lambda s: program_fails_verifier(s, tmp))
-            return {"kind": "implementation-vs-spec", "what": "verifier rejects emitted code: " + r, "file": f["file"],
-                    "function": f["head"], "program": small, "found_by": "search"}
-    return None
+            small = shrink_program(src, lambda s: program_fails_verifier(s, tmp)) if program_fails_verifier(src, tmp) else src
+            return {"kind": "implementation-vs-spec", "what": "the compiler panicked: " + st, "file": fl,
+                    "program": small, "found_by": "search"}
+    res, _ = verify_funs(funs)
+    okfile = {fl for fl, st in stats if st.startswith("Ok")}
+    bad, nbad = None, 0
+    for f, r in res:
+        if r.startswith("ok"):
+            if cover is not None:
+                cover.add(r)
+        else:
+            nbad += 1
+            if cover is not None:
+                cover.rejected(f)
+            # prefer a program the compiler accepts as a whole (the property speaks about accepted programs)
+            if bad is None or (bad[0]["file"] not in okfile and f["file"] in okfile):
+                bad = (f, r)
+    if bad is None:
+        return None
+    f, r = bad
+    src = open(f["file"]).read()
+    tmp = os.path.join(common.VERIF, "work", "c06_shrink_%d.lay" % os.getpid())
+    small, det = src, {}
+    if program_fails_verifier(src, tmp):
+        small = shrink_program(src, lambda s: program_fails_verifier(s, tmp))
+        program_fails_verifier(small, tmp, det)
+    return {"kind": "implementation-vs-spec",
+            "what": "the verified bytecode verifier rejects a function the compiler emitted: " + (det.get("reply") or r),
+            "file": f["file"], "function": det.get("function") or f["head"], "post": det.get("post") or f.get("POST", "")[:4000],
+            "program": small, "found_by": "search", "functions_rejected_in_this_stage": nbad,
+            "in_the_generated_program": {"function": f["head"], "verifier": r}}
+
+
+def search(ctx):
+    """A broken obligation: look for a program whose emitted code the verifier rejects.  Returns (found or None, report).
+    When the regenerated stack_effect table differs from the model, the rows that differ are computed by the driver
+    (`EffectRows.differingRows`) and the directed generator draws its segments around those instructions first; the
+    report says, per differing row, in how many generated functions the instruction stood in front of a handler / of the
+    depth peak - a row the search never generated is named (`rows_never_generated`), not passed over in silence."""
+    report = {}
+    cov = TableCoverage()
+    diff = table_diff()
+    focus = None
+    if diff is None:
+        report["table_rows_differing"] = "unknown: the driver could not be asked (it did not build)"
+    else:
+        focus, words = diff
+        report["table_rows_differing"] = words
+    corpus = os.path.join(common.VERIF, "corpus", "C06")
+    if os.path.isdir(corpus) and not os.environ.get("C06_NO_CORPUS"):
+        cf = sorted(os.path.join(corpus, f) for f in os.listdir(corpus) if f.endswith(".lay"))
+        found = search_files(cf, cov) if cf else None
+        if found:
+            found["found_by"] = "search: corpus"
+            return found, report
+    stages = []
+    if focus:
+        stages.append(("search: directed generator focused on the differing rows " + ", ".join(focus),
+                       lambda: write_directed(ctx, 150, "search_focus", focus, seed_salt=1)))
+    stages.append(("search: directed generator, all rows", lambda: write_directed(ctx, 300, "search_directed", None, seed_salt=2)))
+    stages.append(("search: program generator", lambda: write_programs(ctx, 2000, "search")))
+    found = None
+    for name, mk in stages:
+        found = search_files(mk(), cov)
+        if found:
+            found["found_by"] = name
+            break
+    variants = table_variants()
+    rep = cov.report(variants, rows=focus or None)
+    report["search_coverage"] = {k: rep[k] for k in ("variants_in_table", "verified_functions", "rejected_functions", "seen", "seen_before_a_handler",
+                                                     "seen_before_the_depth_peak", "never_seen", "never_before_a_handler")}
+    if focus:
+        report["differing_rows_in_verified_functions"] = rep["per_variant"]
+        gone = [v for v in focus if v in NOT_IN_EMITTED_CODE]
+        if gone:
+            report["rows_not_in_emitted_code"] = ("%s: deleted by the peephole pass before apply_stack_effects runs, so no program can show "
+                                                  "the edited row; the [G] lemma is its only detector" % ", ".join(gone))
+        never = [v for v in focus if not cov.funs.get(v) and not getattr(cov, "rej", {}).get(v) and v not in NOT_IN_EMITTED_CODE]
+        if never and not found:
+            report["rows_never_generated"] = never
+            report["LOUD"] = ("the search generated NO function containing %s although its table row differs from the model: "
+                              "the generator has no snippet that makes the compiler emit it (vlib/props/c06gen.py SNIPPETS)" % ", ".join(never))
+    return found, report
+
+
+def check_table_coverage(ctx):
+    """The coverage figure of the streams over the regenerated table: every variant must have occurred in a verified
+    function in front of a handler (the position in which a wrong row is rejected), except the ones that never reach the
+    emitted code.  A variant the streams never produced is a hole in the generator, reported as a broken stream."""
+    variants = table_variants()
+    rep = COVER.report(variants)
+    rep["not_in_emitted_code"] = [v for v in NOT_IN_EMITTED_CODE if v in variants]
+    ctx.cov["table_coverage"] = rep
+    holes = [v for v in variants if not COVER.h.get(v) and v not in NOT_IN_EMITTED_CODE]
+    stale = [v for v in NOT_IN_EMITTED_CODE if COVER.funs.get(v)]
+    if not variants or holes or stale:
+        ctx.cov["model_vs_impl_disagreements"] += 1
+        ctx.violation("table_coverage", {"kind": "generator-coverage", "broken": "directed stream: coverage of the regenerated stack_effect table",
+                                         "what": "variants of SymbolicByteCode that no verified function of this run contains in front of a handler "
+                                                 "(add a snippet to vlib/props/c06gen.py): %s; listed as never emitted but seen: %s" % (holes, stale),
+                                         "coverage": {k: v for k, v in rep.items() if k != "per_variant"}}, no_input=True)
+        return False
+    return True
 
 
 def run(ctx):
+    t_run = time.time()
+    stage = {}
+    ctx.cov["stage_wall_s"] = stage
+
+    def lap(name):
+        nonlocal t_run
+        stage[name] = round(time.time() - t_run, 1)
+        t_run = time.time()
     proved = ctx.prove("LaytheVerif.Props.C06")
+    lap("prove")
     ok_c, out_c = common.cargo_build()
+    lap("cargo_build")
     if not ok_c:
         ctx.violation("harness_build", {"kind": "harness-build-failed", "broken": "cargo build of /verif/harness against /repo",
                                         "output": out_c[-3000:]}, no_input=True)
         return
-    ctx.cov["rule"] = ("every function the compiler emits for the fixture corpus and for generated programs (typed, scope-correct, "
-                       "loops/break/continue/try/ternary/closures/classes/sends) is checked by the verified verifier (translation validation "
+    ctx.cov["rule"] = ("every function the compiler emits for the fixture corpus, for generated programs (typed, scope-correct, "
+                       "loops/break/continue/try/ternary/closures/classes/sends) and for the directed stream (every variant of the regenerated "
+                       "stack_effect table in front of a handler, the depth peak, a join, a back edge; table_coverage) is checked by the verified verifier (translation validation "
                        "with a validator whose soundness is a theorem); executed (offset, depth, handlers) points from the interpreter probe are "
                        "compared with the certificate; non-trivial = function with a jump or a handler; distinct by instruction text")
+    global COVER
+    COVER = TableCoverage()
     if not proved:
         what, detail = ctx.broken
-        found = search(ctx)
+        found, report = search(ctx)
+        ctx.cov["search"] = report
         if not found and not check_boundary(ctx):
             return
         if found:
             found["broken_obligation"] = what
             found["detail"] = detail[-1500:]
+            found["search"] = report
             ctx.violation("spec", found)
         else:
-            ctx.violation("proof", {"kind": "proof-obligation-failed", "broken": what, "detail": detail}, no_input=True)
+            ctx.violation("proof", {"kind": "proof-obligation-failed", "broken": what, "detail": detail, "search": report}, no_input=True)
         return
     corpus = os.path.join(common.VERIF, "corpus", "C06")
-    if os.path.isdir(corpus):
+    use_corpus = os.path.isdir(corpus) and not os.environ.get("C06_NO_CORPUS")
+    if use_corpus:
         cf = sorted(os.path.join(corpus, f) for f in os.listdir(corpus) if f.endswith(".lay"))
         if cf and check_dump(ctx, "corpus", cf) is None:
             return
     if check_dump(ctx, "fixtures", dumps.fixture_files()) is None:
         return
-    files = write_programs(ctx, ctx.n(600, 20000), "gen")
+    lap("corpus_fixtures")
+    # the directed stream: every variant of the regenerated table in front of a handler / the depth peak / a join
+    dfiles = write_directed(ctx, ctx.n(160, 4000), "directed")
+    dfuns = check_dump(ctx, "directed", dfiles)
+    if dfuns is None:
+        return
+    lap("directed")
+    files = write_programs(ctx, ctx.n(450, 20000), "gen")
     funs = check_dump(ctx, "generated", files)
     if funs is None:
         return
+    lap("generated")
     if funs:
         ctx.sample({"function": funs[-1]["head"], "post": funs[-1].get("POST", "")[:300]})
+    if dfuns:
+        ctx.sample({"stream": "directed", "function": dfuns[-1]["head"], "post": dfuns[-1].get("POST", "")[:300]})
+    if not check_table_coverage(ctx):
+        return
     cf = []
-    if os.path.isdir(corpus):
+    if use_corpus:
         cf = sorted(os.path.join(corpus, f) for f in os.listdir(corpus) if f.endswith(".lay"))
     fx = [f for f in dumps.fixture_files() if "/language/" in f and "native_stack_overvflow" not in f]
     # fixtures for the probe: round-robin over the fixture directories, so that the quick tier sees every language area
@@ -320,10 +672,20 @@ def run(ctx):
             if k < len(bydir[dname]):
                 fxr.append(bydir[dname][k])
         k += 1
-    if not check_probe(ctx, "probe", cf + files[:ctx.n(300, 5000)] + fxr[:ctx.n(260, len(fxr))]):
+    if not check_probe(ctx, "probe", cf + dfiles[:ctx.n(160, 2000)] + files[:ctx.n(220, 5000)] + fxr[:ctx.n(260, len(fxr))]):
         return
+    lap("probe")
     if not check_boundary(ctx):
         return
+    lap("jump_boundary")
+    if getattr(ctx, "capacity_tie_broken", False) and not any(not suffix for _, suffix in ctx.violations):
+        # a broken tie and no concrete input from the regular streams: the search (bigger budget, Spec-judged)
+        found, report = search(ctx)
+        ctx.cov["search"] = report
+        if found:
+            found["search"] = report
+            ctx.violation("spec", found)
+        lap("search_after_tie")
     ctx.assumptions += [
         "vmEffect (pops, pushes per instruction) is hand-written from vm/ops.rs; it is tied to the interpreter by the probe stream (every executed offset's depth and handler count must equal the certificate), not proved from the Rust",
         "the verifier runs on the symbolic post-optimisation instruction list recorded by the compile hook; byte-level encoding is covered by the encode tie",
@@ -352,6 +714,10 @@ def replay(path):
         print("probe: executed depths differ from the certificate, see", [v[0] for v in c.violations][:2])
         bad = True
     for f, rep in res:
-        print(f["head"], "=>", rep)
+        print(f["head"], "=>", rep.split(" cover=")[0])
         bad = bad or not rep.startswith("ok")
+        m = re.search(r"maxdepth=(\d+) capacity=(\d+)", rep)
+        if m and " allreach=1" in rep and int(m.group(2)) - int(m.group(1)) != 1:
+            print("capacity tie: max_slots of this fully reachable function is not the model's peak")
+            bad = bad or str(r.get("broken", "")).startswith("capacity tie")
     return 1 if bad else 0
